@@ -344,7 +344,7 @@ def gen_table(rng, tier, seed, index):
     io_i, io_r, sc, mitm = index % 5, (index // 5) % 5, bool((index // 25) % 2), bool((index // 50) % 2)
     def side(io):
         return {'io': io, 'sc': sc, 'mitm': mitm, 'bonding': True, 'init_dist': 0x0F, 'resp_dist': 0x0F, 'answers': {'delay': 0.0}}
-    return {'i': side(io_i), 'r': side(io_r), 'starter': 'central', 'negative': None, 'fault': None, 'profile': rng.choice(['zero', 'lan']),
+    return {'i': side(io_i), 'r': side(io_r), 'starter': 'central', 'negative': None, 'fault': None, 'profile': rng.choice(['zero', 'lan', 'burst']),
             'reconnect': True, 'repair': False}
 
 
